@@ -206,14 +206,18 @@ class Family:
                     yield fn
 
     def called_on_this(self, fn):
-        """is fn called (receiver this) by some other analysed family function?"""
+        """is fn called - on this, or on another named object of the family (`other._forget_indices()` in a move constructor) - by
+        some other analysed family function?  (The callers' interpretation then covers it in their state of the receiver.)"""
         memo = self.__dict__.setdefault("_callers", None)
         if memo is None:
             memo = set()
             for g in self.functions():
                 for n in g.nodes():
-                    if n.get("k") == "MCall" and n.get("cdecl") is not None and (n.get("obj") is None or unwrap(n["obj"]).get("k") == "This"):
-                        memo.add((id(g.facts), n["cdecl"], g.d.get("decl")))
+                    if n.get("k") == "MCall" and n.get("cdecl") is not None:
+                        ob = unwrap(n["obj"]) if n.get("obj") is not None else None
+                        if ob is None or ob.get("k") == "This" or (ob.get("k") == "Ref" and ob.get("dk") in ("param", "local")) or \
+                                (ob.get("k") == "Un" and ob.get("op") == "*" and unwrap(ob.get("e") or {}).get("k") == "This"):
+                            memo.add((id(g.facts), n["cdecl"], g.d.get("decl")))
             self._callers = memo
         return any(a == id(fn.facts) and d == fn.d.get("decl") and who != fn.d.get("decl") for a, d, who in memo)
 
@@ -503,6 +507,7 @@ class Interp:
         # but could not be evaluated: both sides were interpreted and joined, so a per-mode table read off the exit
         # state is an over-approximation, not the table of that mode
         self.mode_undecided = []
+        self.inlined_obs = []          # (helper id, rule, subkey, ok) of obligations that came from inlined helpers
         self._stable = {}
         self._cur = None          # the path state conditions are evaluated in (values of flag / mode locals assigned on the way)
         if self.env:
@@ -2158,14 +2163,34 @@ class Interp:
             memo[id(callee)] = False
             with _alias_scope():
                 it = Interp(self.fam, callee, summaries={}, depth=self.depth + 2).run()
-            bad = [o_ for o_ in it.obligations + exit_obligations(it) if not o_[2] and o_[0] != "index-array-write"]
+            allbad = [o_ for o_ in it.obligations + exit_obligations(it) if not o_[2]]
+            bad = [o_ for o_ in allbad if o_[0] != "index-array-write"]
             res = bool(bad) and not it.unknown
+            if not res and allbad and not it.unknown and self.depth < 2:
+                # only writes through index arrays the helper did not allocate itself: a defect of the helper if no caller
+                # provides freshly allocated arrays (reported on the helper, e.g. _copy_content), but a piece of its callers if
+                # some call site does (`_append_entry` behind the re-allocation): then it is judged at the call sites
+                res = self._idx_write_depends_on_caller(callee)
         memo[id(callee)] = res
         return res
 
+    def _idx_write_depends_on_caller(self, callee):
+        for g in self.fam.functions():
+            if g is callee or g.facts is not callee.facts:
+                continue
+            if not any(x.get("k") == "MCall" and x.get("cdecl") == callee.d.get("decl") for x in g.nodes()):
+                continue
+            with _alias_scope():
+                it = Interp(self.fam, g, summaries={}, depth=self.depth + 2)
+                it.force_inline = {id(callee)}
+                it.run()
+            if any(cid == id(callee) and r == "index-array-write" and ok for (cid, r, sub, ok) in it.inlined_obs):
+                return True
+        return False
+
     def inline_helper(self, o, n, st, callee):
         """interpret a context helper in the caller's state of the receiver"""
-        if not self.is_context_helper(callee):
+        if id(callee) not in getattr(self, "force_inline", ()) and not self.is_context_helper(callee):
             return False
         init = {}
         for k, v in st.items():
@@ -2183,6 +2208,7 @@ class Interp:
         for (r, sub, ok, det, line) in it.obligations:
             sub2 = re.sub(r"^this\b", tag, sub)
             self.nevents += 1
+            self.inlined_obs.append((id(callee), r, sub2, ok))
             self.obligations.append((r, sub2, ok, ("[in helper %s] " % short(callee.qn)) + det if not ok else det, line))
         out = None
         for s_, _ in it.exits:
